@@ -30,6 +30,8 @@ def case_fn(c):
         fails = oracle.check_population(c["ps"], T=c.get("T", 0.5), dt=c.get("dt", 0.05), solver=c.get("solver", "euler"))
     elif kind == "jacobian":
         fails = oracle.check_jacobian(c["model"], seed=c.get("seed", 0), sparse=c.get("sparse", False))
+    elif kind == "frontends":
+        fails = oracle.check_frontends(c["model"], c["route"], c["vec"], seed=c.get("seed", 0), style=c.get("style", 0))
     elif kind == "outputs":
         fails = oracle.check_outputs(c["model"], c["request"], c["form"], c["vec"])
     else:
